@@ -7,6 +7,7 @@ exit 0 held | 1 violation (VIOLATION line) | 2 undecided | 3 checker crash / zer
 
 from __future__ import annotations
 
+import fnmatch
 import importlib
 import json
 import multiprocessing as mp
@@ -127,7 +128,19 @@ def run_property(pid, tier="quick", seed=0, jobs=None):
         results.extend(rs)
   results.sort(key=lambda r: r["oid"])
   known = [k for k in load_known() if k.get("property") == pid]
-  known_ids = {k["obligation"]: k for k in known if k.get("status") == "known"}
+  known_pats = [(pat, k) for k in known if k.get("status") == "known" for pat in ([k["obligation"]] if "obligation" in k else []) + list(k.get("obligations", []))]
+
+  class _K(dict):
+    def __contains__(self, oid):
+      return any(fnmatch.fnmatchcase(oid, pat) for pat, _ in known_pats)
+
+    def __getitem__(self, oid):
+      for pat, k in known_pats:
+        if fnmatch.fnmatchcase(oid, pat):
+          return k
+      raise KeyError(oid)
+
+  known_ids = _K()
   viol, undec, crash, disch, knownhit = [], [], [], [], []
   for r in results:
     s = r["status"]
@@ -147,9 +160,12 @@ def run_property(pid, tier="quick", seed=0, jobs=None):
   # a known finding that no longer fails is simply not printed (the obligation is then discharged)
   os.makedirs(os.path.join(HERE, "replay"), exist_ok=True)
   os.makedirs(os.path.join(HERE, "evidence"), exist_ok=True)
+  seen_k = {}
   for r in knownhit:
     k = known_ids[r["oid"]]
-    print(f"KNOWN-FINDING: property={pid} {k.get('what', r['oid'])} [obligation {r['oid']}]")
+    seen_k.setdefault(k.get("id", k.get("what")), (k, []))[1].append(r["oid"])
+  for kid, (k, oids) in seen_k.items():
+    print(f"KNOWN-FINDING: property={pid} {k.get('what', kid)} [failing obligations: {', '.join(oids[:4])}{' ...' if len(oids) > 4 else ''}]")
   for r in viol:
     rp = os.path.join(HERE, "replay", f"{pid}_{_safe(r['oid'])}.json")
     rep = r.get("replay") or {}
